@@ -616,6 +616,9 @@ E("share", "share", "op", MC_SRC, none, lambda env, P: ops.share(), c04=False, c
 E("ref_count", "ref_count", "op", MC_SRC, none, lambda env, P: ops.ref_count(), c04=False, c44=True, prep=_publish_conn)
 E("replay", "replay", "op", MC_SRC, lambda r: {"n": r.choice([None, None, 1, 2]), "w": r.choice([None, None, 10])},
   lambda env, P: ops.replay(buffer_size=P["n"], window=P["w"], scheduler=env.ts), c04=False, c44=True)
+# (no scheduler argument: the ReplaySubjects fall back to the current thread's trampoline; no window, which would read real time)
+E("replay_default_scheduler", "replay", "op", MC_SRC, lambda r: {"n": r.choice([None, 1, 2, 3])},
+  lambda env, P: ops.replay(buffer_size=P["n"]), c04=False, c44=True)
 E("replay_mapper", "replay", "op", MC_SRC, lambda r: {"n": r.choice([None, 1, 2])},
   lambda env, P: ops.replay(buffer_size=P["n"], mapper=_mapper_twice, scheduler=env.ts), c04=False, c44=True)
 E("publish_value", "publish_value", "op", MC_SRC, lambda r: {"v": r.choice([None, 0, "init"])},
